@@ -521,6 +521,8 @@ class Interp:
         m = re.fullmatch(r'discriminant\((.+)\)', rv)
         if m:
             e = deref(self.parse_place(env, m.group(1))[0]())
+            if isinstance(e, SymEnum):
+                return ('discr-sym', e, self.place_type(env, m.group(1)))
             if not isinstance(e, Enum):
                 raise Untranslatable('discriminant of non-enum')
             return ('discr', e.variant, self.place_type(env, m.group(1)))
@@ -700,6 +702,10 @@ class Interp:
             if d[0].variant == 'None':
                 return [(pc, Enum('None'))]
             return [(pc2, Enum('Some', [r])) for pc2, r in self.call_closure(d[1], [d[0].fields[0]], pc, depth)]
+        m = re.fullmatch(r'<[\w:]+ as Ord>::(max|min)', c)
+        if m and isinstance(d[0], SymEnum) and isinstance(d[1], SymEnum) and d[0].variants == d[1].variants:
+            a_, b_ = d[0].var, d[1].var
+            return [(pc, SymEnum(z3.If(a_ >= b_, a_, b_) if m.group(1) == 'max' else z3.If(a_ <= b_, a_, b_), d[0].variants))]
         m = re.fullmatch(r'Option::<.*>::unwrap_or', c)
         if m and isinstance(d[0], Enum):
             return [(pc, d[0].fields[0] if d[0].variant == 'Some' else d[1])]
@@ -747,6 +753,18 @@ class Interp:
         if m:
             op = {'gt': 'Gt', 'lt': 'Lt', 'ge': 'Ge', 'le': 'Le', 'eq': 'Eq', 'ne': 'Ne'}[m.group(1)]
             if isinstance(d[0], (Enum, SymEnum)) or isinstance(d[1], (Enum, SymEnum)):
+                if op not in ('Eq', 'Ne') and (isinstance(d[0], SymEnum) or isinstance(d[1], SymEnum)):
+                    def idx(v, other):
+                        if isinstance(v, SymEnum):
+                            return v.var
+                        if isinstance(v, Enum) and not v.fields and v.variant in other.variants:
+                            return other.variants.index(v.variant)
+                        raise Untranslatable('ordering comparison of a symbolic enum with %r' % (v,))
+                    ref = d[0] if isinstance(d[0], SymEnum) else d[1]
+                    if isinstance(d[0], SymEnum) and isinstance(d[1], SymEnum) and d[0].variants != d[1].variants:
+                        raise Untranslatable('ordering comparison of symbolic enums of different types')
+                    x, y = idx(d[0], ref), idx(d[1], ref)
+                    return [(pc, {'Gt': x > y, 'Lt': x < y, 'Ge': x >= y, 'Le': x <= y}[op])]
                 if op not in ('Eq', 'Ne'):
                     # derived PartialOrd on field-less enums = declaration order (read from the source)
                     a_, b_ = d[0], d[1]
@@ -1154,6 +1172,23 @@ class Interp:
                 if m:
                     v = self.operand(env, m.group(1))
                     arms = split_args(m.group(2))
+                    if isinstance(v, tuple) and v[0] == 'discr-sym':
+                        se = v[1]
+                        opts = []
+                        for k_, var_ in enumerate(se.variants):
+                            num = self.variant_index(var_, v[2], {})
+                            tgt = None
+                            for arm in arms:
+                                key, t = [x.strip() for x in arm.split(':')]
+                                if key == str(num):
+                                    tgt = t
+                            if tgt is None:
+                                tgt = [a.split(':')[1].strip() for a in arms if a.strip().startswith('otherwise')][0]
+                            opts.append((tgt, env, z3.And(pc, se.var == k_)))
+                        if getattr(self, 'replay', False):
+                            opts = [opts[self.choose(len(opts))]]
+                        work += opts
+                        break
                     if isinstance(v, tuple) and v[0] == 'discr':
                         order = {'None': 0, 'Some': 1, 'Continue': 0, 'Break': 1, 'Ok': 0, 'Err': 1,
                                  'Default': 0, 'Reversed': 1, 'Clockwise': 0, 'CounterClockwise': 1,
